@@ -32,10 +32,20 @@ RULE = ("cases = (alphabet, reference string, k, insertion, deletion, substituti
         "single insert/delete/replace steps from the reference string: every reached word must be accepted, every "
         "accepted word up to the bound must be reached); every case also tests 3 words obtained by j random enabled "
         "single edits for each j ∈ {k−1, k, k+1} (j ≤ k: must be accepted by construction; j = k+1: DP decides) so that "
-        "long references are probed at the boundary; a case is non-trivial when the reference string is non-empty and 1 ≤ k and k "
+        "long references are probed at the boundary; round 3: (i) each of 50 characters that are special elsewhere "
+        "(regex / re / format metacharacters, blanks, control characters, digits, irregular-case, combining, non-BMP) as "
+        "an ordinary symbol — alphabet {c,a}, references c and a·c·a, k ∈ {0,1}, 4 flag sets, all words to |ref|+k+1 — and "
+        "random alphabets / references made of such characters; (ii) references of 256, 257, 300 and random 258–400 "
+        "symbols (k ≤ 2) and bounds k ∈ {257, 258, 300} with short references: automaton compared exactly with the model, "
+        "language judged by the DP on 13 deterministic neighbours of the reference (itself, one symbol dropped / added / "
+        "replaced at either end and in the middle) whenever the enumeration bound is below |ref|, and on the random-edit "
+        "words; a case is non-trivial when the reference string is non-empty and 1 ≤ k and k "
         "is smaller than the reference length + 2; distinct = distinct argument tuples")
 ASSUMPTIONS = [
     "input_symbols is a set of single characters; the reference string is a str; max_edit_distance is an int",
+    "the property is about arguments, so no result may depend on earlier constructions: the failure that is printed is "
+    "re-run in a fresh interpreter and, if it holds there, recorded earlier edit_distance calls of the run are put in "
+    "front of it (harness/fresh.py)",
     "the language clause is about reference strings over the alphabet; for any other reference string (k ≥ 0, some kind "
     "enabled) the constructor raises InvalidSymbolError — theorem C16_ref_outside_alphabet, modelled, compared and "
     "evaluated on the real code",
@@ -135,15 +145,73 @@ def random_edits(rng, ref: str, alpha, j: int, ins: bool, dele: bool, sub: bool)
     return s
 
 
-def check_one(ctx: Ctx, sigma, ref: str, k: int, ins: bool, dele: bool, sub: bool, origin: str, max_words: int = 400):
+def shown(w: str) -> str:
+    """repr of a word, abbreviated when long (messages only; replays carry the full word)."""
+    return repr(w) if len(w) <= 40 else f"{w[:16]!r}…{w[-12:]!r} (length {len(w)})"
+
+
+def foreign_for(alpha) -> str:
+    """A character outside `alpha` (the shared helper only knows five candidates)."""
+    c = gen.foreign_symbol(alpha)
+    if c not in alpha:
+        return c
+    return next(chr(i) for i in range(0x41, 0x3000) if chr(i) not in alpha)
+
+
+def boundary_words(ref: str, alpha) -> list:
+    """Deterministic words next to a reference string that the length-bounded enumeration cannot reach: the
+    reference string itself, one symbol dropped / added / replaced at either end and in the middle."""
+    if not alpha:
+        return [ref]
+    a = alpha[0]
+    n = len(ref)
+    out = [ref, ref + a, a + ref, ref[:n // 2] + a + ref[n // 2:]]
+    if ref:
+        def other(c):
+            return next((x for x in alpha if x != c), c)
+        m = n // 2
+        out += [ref[1:], ref[:-1], ref[:m] + ref[m + 1:], other(ref[0]) + ref[1:], ref[:-1] + other(ref[-1]),
+                ref[:m] + other(ref[m]) + ref[m + 1:], ref[1:] + a, ref[2:], ref[:-2] + other(ref[-1]) * 2]
+    seen, res = set(), []
+    for w in out:
+        if w not in seen:
+            seen.add(w)
+            res.append(w)
+    return res
+
+
+# Every edit_distance call made by check_one in this process, in order (as replayable cases): if a failing case turns
+# out to depend on the calls made before it (harness/fresh.py), they are its replay.
+CALLS: list = []
+
+
+def check_one(ctx: Ctx, sigma, ref: str, k: int, ins: bool, dele: bool, sub: bool, origin: str, max_words: int = 400,
+              model: bool = True, extra_words=()):
+    """`model=False`: property on the real code only (no driver; used when a recorded program of calls is re-run in a
+    fresh interpreter).  `extra_words`: further words to judge by the DP (the recorded failing word of a replay — the
+    random-edit words are not reproducible)."""
+    n_fails_before = len(ctx.prop_fails)
+    try:
+        _check_one(ctx, sigma, ref, k, ins, dele, sub, origin, max_words, model, extra_words)
+    finally:
+        for f in ctx.prop_fails[n_fails_before:]:
+            f["_calls"] = len(CALLS)
+
+
+def _check_one(ctx: Ctx, sigma, ref: str, k: int, ins: bool, dele: bool, sub: bool, origin: str, max_words: int,
+               model: bool, extra_words):
     sy = Names(sorted(set(sigma) | set(ref)))
-    res = call(lambda: NFA.edit_distance(set(sigma), ref, k, insertion=ins, deletion=dele, substitution=sub))
-    order = [sy(a) for a in set(sigma)]
-    line = ctx.driver("drv_nfa_ops").ask(
-        toks("EDIT", len(order), order, len(ref), [sy(c) for c in ref], k, ins, dele, sub))
-    mod = L.parse_res_nfag(line)
     case = dict(input_symbols=sorted(sigma), reference_str=ref, max_edit_distance=k,
                 insertion=ins, deletion=dele, substitution=sub)
+    CALLS.append(case)
+    res = call(lambda: NFA.edit_distance(set(sigma), ref, k, insertion=ins, deletion=dele, substitution=sub))
+    if model:
+        order = [sy(a) for a in set(sigma)]
+        line = ctx.driver("drv_nfa_ops").ask(
+            toks("EDIT", len(order), order, len(ref), [sy(c) for c in ref], k, ins, dele, sub))
+        mod = L.parse_res_nfag(line)
+    else:
+        line, mod = "", None
     if res[0] == "ok":
         impl = ("ok", L.plain(res[1], sy, lambda q: tuple(q) if isinstance(q, tuple) else ("?", repr(q))))
     else:
@@ -161,7 +229,7 @@ def check_one(ctx: Ctx, sigma, ref: str, k: int, ins: bool, dele: bool, sub: boo
         else:
             R = res[1]
             alpha = sorted(sigma)
-            foreign = gen.foreign_symbol(alpha)
+            foreign = foreign_for(alpha)
             bound = min(len(ref) + k + 1, 7)
             while bound > 1 and sum(len(alpha) ** i for i in range(bound + 1)) > max_words:
                 bound -= 1
@@ -171,8 +239,8 @@ def check_one(ctx: Ctx, sigma, ref: str, k: int, ins: bool, dele: bool, sub: boo
                 if (w in LR) != exp:
                     got = R.accepts_input(w)
                     if got != exp:
-                        ctx.prop_fail(f"edit_distance({ref!r}, k={k}, ins={ins}, del={dele}, sub={sub}) "
-                                      f"{'accepts' if got else 'rejects'} {w!r}, which is "
+                        ctx.prop_fail(f"edit_distance({alpha!r}, {shown(ref)}, k={k}, ins={ins}, del={dele}, sub={sub}) "
+                                      f"{'accepts' if got else 'rejects'} {shown(w)}, which is "
                                       f"{'within' if exp else 'not within'} {k} enabled edits",
                                       dict(case, failure="language", word=w, result_accepts=got, expected=exp), None)
                         break
@@ -184,7 +252,7 @@ def check_one(ctx: Ctx, sigma, ref: str, k: int, ins: bool, dele: bool, sub: boo
                     ctx.stat("operational_bfs_words", len(reach))
                     for w in sorted(reach, key=lambda x: (len(x), x)):     # positive side: complete
                         if not R.accepts_input(w):
-                            ctx.prop_fail(f"edit_distance({ref!r}, k={k}, ins={ins}, del={dele}, sub={sub}) rejects {w!r}, "
+                            ctx.prop_fail(f"edit_distance({alpha!r}, {shown(ref)}, k={k}, ins={ins}, del={dele}, sub={sub}) rejects {shown(w)}, "
                                           f"which is reached from the reference string by at most {k} single enabled edits",
                                           dict(case, failure="language-operational", word=w, result_accepts=False,
                                                expected=True), None)
@@ -192,7 +260,7 @@ def check_one(ctx: Ctx, sigma, ref: str, k: int, ins: bool, dele: bool, sub: boo
                     else:
                         for w in LR:                                      # negative side: up to the bound
                             if w not in reach and R.accepts_input(w):
-                                ctx.prop_fail(f"edit_distance({ref!r}, k={k}, ins={ins}, del={dele}, sub={sub}) accepts {w!r}, "
+                                ctx.prop_fail(f"edit_distance({alpha!r}, {shown(ref)}, k={k}, ins={ins}, del={dele}, sub={sub}) accepts {shown(w)}, "
                                               f"which no sequence of at most {k} single enabled edits produces",
                                               dict(case, failure="language-operational", word=w, result_accepts=True,
                                                    expected=False), None)
@@ -219,9 +287,21 @@ def check_one(ctx: Ctx, sigma, ref: str, k: int, ins: bool, dele: bool, sub: boo
                     if got != exp:
                         how = (f"was produced by {j} ≤ k single enabled edits" if j <= k else
                                f"is not within {k} enabled edits (alignment DP; produced by {j} edits)")
-                        ctx.prop_fail(f"edit_distance({ref!r}, k={k}, ins={ins}, del={dele}, sub={sub}) "
-                                      f"{'accepts' if got else 'rejects'} {w!r}, which {how}",
+                        ctx.prop_fail(f"edit_distance({alpha!r}, {shown(ref)}, k={k}, ins={ins}, del={dele}, sub={sub}) "
+                                      f"{'accepts' if got else 'rejects'} {shown(w)}, which {how}",
                                       dict(case, failure="language-targeted", word=w, result_accepts=got, expected=exp), None)
+                        break
+            # --- deterministic neighbours of the reference string, when the enumeration above stops short of it
+            if len(ref) > bound or extra_words:
+                for w in [x for x in extra_words if set(x) <= set(alpha)] + (boundary_words(ref, alpha) if len(ref) > bound else []):
+                    exp = dp_within(ref, w, k, ins, dele, sub)
+                    ctx.stat(f"boundary_word_{'in' if exp else 'out'}")
+                    got = R.accepts_input(w)
+                    if got != exp:
+                        ctx.prop_fail(f"edit_distance({alpha!r}, {shown(ref)}, k={k}, ins={ins}, del={dele}, sub={sub}) "
+                                      f"{'accepts' if got else 'rejects'} {shown(w)}, which is "
+                                      f"{'within' if exp else 'not within'} {k} enabled edits (alignment DP)",
+                                      dict(case, failure="language-boundary", word=w, result_accepts=got, expected=exp), None)
                         break
             # a word with a foreign symbol is never accepted
             for w in (foreign, ref + foreign, foreign + ref, ref[:1] + foreign + ref[1:]):
@@ -242,14 +322,18 @@ def check_one(ctx: Ctx, sigma, ref: str, k: int, ins: bool, dele: bool, sub: boo
     ctx.stat(origin)
     ctx.stat(f"flags_{int(ins)}{int(dele)}{int(sub)}")
     ctx.stat("k_negative" if k < 0 else f"k_{min(k, 4)}")
-    ctx.stat(f"ref_len_{min(len(ref), 6)}")
+    ctx.stat(f"ref_len_{min(len(ref), 6)}" if len(ref) <= 256 else "ref_len_gt256")
+    if k > 256:
+        ctx.stat("k_gt256")
     if not in_domain:
         ctx.stat("ref_outside_alphabet")
     if res[0] == "err":
         ctx.stat("impl_raised_" + res[1])
     if ctx.evaluations % 211 == 1:
         ctx.sample(dict(case, result=repr(res[1])[:600] if res[0] == "ok" else res, model_line=line[:300]))
-    if impl != mod:
+    if model and impl != mod:
+        if len(ref) + max(k, 0) > 40:       # keep the evidence readable: a 300 × 3 grid is not
+            impl, mod = repr(impl)[:1500], repr(mod)[:1500]
         ctx.corr_diff("EDIT", case, impl, mod)
 
 
@@ -269,7 +353,42 @@ def probe_empty_symbol(ctx: Ctx):
                  "add_any_transition add an ε-edge, i.e. a deletion although deletion is disabled")
 
 
+def judge_program_json(text: str):
+    """Entry point of the fresh-interpreter confirmation (harness/fresh.py) and of `replay` for recorded sequences: run
+    the recorded cases in order through the real library, property only; returns the failures."""
+    ctx = Ctx("C16", "quick", 0)
+    out = []
+    for i, c in enumerate(json.loads(text)):
+        n = len(ctx.prop_fails)
+        check_one(ctx, c["input_symbols"], c["reference_str"], c["max_edit_distance"], c["insertion"], c["deletion"],
+                  c["substitution"], origin="replay", model=False, extra_words=[c["word"]] if "word" in c else ())
+        out += [(i, f["what"]) for f in ctx.prop_fails[n:]]
+    return out
+
+
+def settle_replays(ctx: Ctx):
+    """The failure run.py prints must fail as the first call of a fresh interpreter; otherwise its replay becomes the
+    recorded edit_distance calls that lead to it (harness/fresh.py; related calls = same alphabet)."""
+    from harness import fresh
+
+    def as_step(rp):
+        keys = ("input_symbols", "reference_str", "max_edit_distance", "insertion", "deletion", "substitution", "word")
+        return {k: rp[k] for k in keys if k in rp}
+
+    def make_replay(steps, rp, n_history):
+        return dict(kind="sequence", cases=steps, failure=rp.get("failure"))
+
+    fresh.settle_replays(ctx, "C16", CALLS, as_step, lambda c: {frozenset(c["input_symbols"])}, make_replay)
+
+
 def run(ctx: Ctx):
+    try:
+        run_families(ctx)
+    finally:
+        settle_replays(ctx)
+
+
+def run_families(ctx: Ctx):
     rng = ctx.rng
     thorough = ctx.thorough()
     probe_empty_symbol(ctx)
@@ -288,6 +407,9 @@ def run(ctx: Ctx):
                 for fl in FLAGS[1:]:
                     check_one(ctx, "abc", ref, k, *fl, origin="exhaustive3")
         ctx.exhaustive("every reference string of length 3 over {a,b,c}, k ∈ {1,2}, 7 flag sets")
+    # 1b. round 3: special characters as ordinary symbols; references / bounds beyond 256
+    special_symbol_families(ctx)
+    long_families(ctx)
     # 2. shaped random
     for _ in range(ctx.budget(1500, 12000)):
         alpha = list(rng.choice([("a", "b"), ("a",), ("a", "b", "c"), ("0", "1"), ("x", "y", "z", "w"), ("b", "a", "é")]))
@@ -308,11 +430,84 @@ def run(ctx: Ctx):
         check_one(ctx, alpha, ref, k, *fl, origin="random", max_words=250 if not thorough else 700)
 
 
+# Characters that are special SOMEWHERE in the library or in Python tooling (regex syntax of automata.regex and of
+# `re`, format / repr / JSON / glob metacharacters, blanks and control characters, digits, characters whose case
+# mapping or normal form is irregular, combining / non-BMP characters).  To edit_distance they are all ordinary
+# symbols: the property quantifies over every alphabet.
+SPECIAL_SYMBOLS = [".", "*", "|", "(", ")", "?", "&", "+", "^", "{", "}", "[", "]", "$", "\\", "/", "-", ",", ":", ";",
+                   "'", '"', "`", "~", "!", "@", "#", "%", "_", "=", "<", ">", " ", "\t", "\n", "\x00", "\x7f", "\xa0",
+                   "0", "1", "9", "\u00e9", "\u00df", "\u0130", "\u03b5", "\u03bb", "\u03a3", "\u0301", "\u2603",
+                   "\U0001d4b3"]
+
+
+def special_symbol_families(ctx: Ctx):
+    """Alphabets and reference strings made of characters that are special somewhere else (round 3).
+    Bounded-exhaustive part: every such character c, alphabet {c, a}, reference strings c and a·c·a, k ∈ {0,1}, the
+    three single kinds and all kinds together.  Random part: alphabets of 2–4 such characters (sometimes with a
+    letter), reference strings of length ≤5 over them, k ≤ 2, any flag set."""
+    rng = ctx.rng
+    some_flags = [(True, True, True), (True, False, False), (False, True, False), (False, False, True)]
+    for c in SPECIAL_SYMBOLS:
+        for ref in (c, "a" + c + "a"):
+            for k in (0, 1):
+                for fl in some_flags:
+                    check_one(ctx, [c, "a"], ref, k, *fl, origin="special_symbol_exhaustive", max_words=130)
+    ctx.exhaustive(f"each of {len(SPECIAL_SYMBOLS)} characters c that are special elsewhere (regex / format / blank / control / "
+                   "digit / non-ASCII / combining / non-BMP): alphabet {c,a}, reference strings c and a·c·a, k ∈ {0,1}, "
+                   "flag sets all / insertion / deletion / substitution; all words up to length |ref|+k+1")
+    for _ in range(ctx.budget(250, 3000)):
+        alpha = rng.sample(SPECIAL_SYMBOLS, rng.randint(1, 4))
+        if rng.random() < 0.3:
+            alpha.append(rng.choice("ab"))
+        n = rng.randint(0, 5)
+        ref = "".join(rng.choice(alpha) for _ in range(n))
+        k = rng.choice([0, 1, 1, 2])
+        fl = rng.choice(FLAGS[1:])
+        if rng.random() < 0.05 and ref and len(alpha) > 1:
+            alpha = [a for a in alpha if a != ref[0]]            # reference outside the alphabet: must be refused
+        check_one(ctx, alpha, ref, k, *fl, origin="special_symbol_random", max_words=200)
+
+
+def long_families(ctx: Ctx):
+    """Reference strings and bounds beyond 256 (round 3): CPython shares int objects only in −5..256, containers
+    change representation with size, recursion depth grows with the grid — none of which the property knows about.
+    The enumeration of short words is kept small (they are all far from the reference string); the judgement comes
+    from the alignment DP on the deterministic neighbours of the reference string (`boundary_words`) and on words
+    made by k−1, k, k+1 random enabled edits; the constructed automaton is still compared exactly with the model."""
+    rng = ctx.rng
+    thorough = ctx.thorough()
+    lengths = [256, 257, 300] + [rng.randint(258, 400) for _ in range(3 if not thorough else 12)]
+    if thorough:
+        lengths += [255, 258, 511, 512, 513, 600]
+    for n in lengths:
+        alpha = rng.choice([["a", "b"], ["a"], ["a", "b", "c"], [".", "a"]])
+        shape = rng.random()
+        if shape < 0.3:
+            ref = ("abbab" * (n // 5 + 1))[:n] if "b" in alpha else alpha[0] * n
+        elif shape < 0.45:
+            ref = alpha[0] * n
+        else:
+            ref = "".join(rng.choice(alpha) for _ in range(n))
+        k = rng.choice([0, 1, 1, 2]) if n <= 400 else rng.choice([0, 1])
+        fl = rng.choice(FLAGS[1:]) if rng.random() < 0.6 else (True, True, True)
+        check_one(ctx, alpha, ref, k, *fl, origin="long_reference", max_words=40)
+    # bound beyond 256 with a short reference string (k larger than the reference length, far)
+    big = [("ab", "ab", 257, (True, True, True)), ("ab", "", 300, (True, False, False)), ("a", "aa", 258, (True, False, True))]
+    if thorough:
+        big += [("ab", "aba", 300, (False, True, True)), ("abc", "abc", 257, (True, True, False)), ("ab", "b", 513, (True, True, True))]
+    for alpha, ref, k, fl in big:
+        check_one(ctx, list(alpha), ref, k, *fl, origin="long_bound", max_words=60)
+
+
 def replay(ctx: Ctx, path: str) -> int:
     data = json.load(open(path))
     rp = data.get("replay", data)
-    check_one(ctx, rp["input_symbols"], rp["reference_str"], rp["max_edit_distance"], rp["insertion"],
-              rp["deletion"], rp["substitution"], origin="replay")
+    if rp.get("kind") == "sequence":
+        for i, what in judge_program_json(json.dumps(rp["cases"])):
+            ctx.prop_fail(f"call {i + 1} of {len(rp['cases'])}: {what}", rp, None)
+    else:
+        check_one(ctx, rp["input_symbols"], rp["reference_str"], rp["max_edit_distance"], rp["insertion"],
+                  rp["deletion"], rp["substitution"], origin="replay", extra_words=[rp["word"]] if "word" in rp else ())
     if ctx.prop_fails:
         print(f"VIOLATION property=C16 replay={path}")
         print("  " + ctx.prop_fails[0]["what"])
